@@ -114,7 +114,7 @@ fn rule_of(i: u8) -> %(L)sRule {
 
 /// native driver: ctor 0 = new_from_iter_with_state, 1 = new_with_state(&str),
 /// 2 = new_from_iter (Default state), 3 = new (Default state); clone_at: clone the lexer before call k
-/// and continue with the clone (k = 255: never)
+/// and continue with the clone (k = 255: never; 100 + k: the original first runs to the end of its stream)
 pub fn run(input: &[char], start: u8, prepeek: bool, script: Vec<u8>, err: u32, ncalls: usize, ctor: u8, clone_at: u8) -> Vec<String> {
     let st = St { script, pos: 0, err, sentinel: 0x5e71 };
     let mut out = Vec::new();
@@ -125,6 +125,13 @@ pub fn run(input: &[char], start: u8, prepeek: bool, script: Vec<u8>, err: u32, 
         if prepeek { let _ = lx.peek(); }
         for k in 0..ncalls {
             if clone_at as usize == k { let c = lx.clone(); let _ = lx.next(); lx = c; let _ = take_log(); }
+            if clone_at >= 100 && clone_at != 255 && (clone_at - 100) as usize == k {
+                // the original runs ahead to the end of its stream, then the clone continues
+                let c = lx.clone();
+                for _ in 0..(ncalls + 2) { if lx.next().is_none() { break; } }
+                lx = c;
+                let _ = take_log();
+            }
             let item = lx.next();
             out.extend(take_log());
             out.push(%(fmt)s(&item));
@@ -138,6 +145,13 @@ pub fn run(input: &[char], start: u8, prepeek: bool, script: Vec<u8>, err: u32, 
         if prepeek { let _ = lx.peek(); }
         for k in 0..ncalls {
             if clone_at as usize == k { let c = lx.clone(); let _ = lx.next(); lx = c; let _ = take_log(); }
+            if clone_at >= 100 && clone_at != 255 && (clone_at - 100) as usize == k {
+                // the original runs ahead to the end of its stream, then the clone continues
+                let c = lx.clone();
+                for _ in 0..(ncalls + 2) { if lx.next().is_none() { break; } }
+                lx = c;
+                let _ = take_log();
+            }
             let item = lx.next();
             out.extend(take_log());
             out.push(%(fmt)s(&item));
